@@ -97,7 +97,10 @@ def lean_audit(prop_mod, extra_mods=()):
     """Audit: forbidden-token scan over the import closure and `#print axioms` for every theorem of the
     property module.  Returns dict(theorems, discharged, problems)."""
     problems = []
-    for mod in import_closure(prop_mod):
+    closure = []
+    for m in (prop_mod,) + tuple(extra_mods):
+        import_closure(m, closure)
+    for mod in closure:
         src = _strip_comments(open(module_file(mod)).read())
         for i, line in enumerate(src.split("\n"), 1):
             if FORBIDDEN.search(line):
@@ -373,7 +376,9 @@ def build_and_audit(ctx, prop_mod, other_mods=(), audit_extra=()):
         return False
     if ctx.tier == "thorough":
         # independent re-check of the compiled modules of this property (project-local import closure) by leanchecker
-        mods = import_closure(prop_mod)
+        mods = []
+        for m in (prop_mod,) + tuple(audit_extra):
+            import_closure(m, mods)
         try:
             p = subprocess.run(["lake", "env", "leanchecker"] + mods, cwd=LEAN, capture_output=True, text=True, timeout=3000)
         except subprocess.TimeoutExpired:
